@@ -214,7 +214,7 @@ class Ctx:
     STATELESS_LEVELS = ("codec",)      # every op is evaluated on its own: a big script may be cut anywhere
 
     def run_model(self, level, script, profile="debug", timeout=600, _shard=True):
-        if _shard and level in self.STATELESS_LEVELS and len(script) > 400000:
+        if _shard and level in self.STATELESS_LEVELS and len(script) > 20000:
             from concurrent.futures import ThreadPoolExecutor
             n = 14
             # round robin, so that the expensive cases (long expansions) are spread over the shards
